@@ -40,6 +40,9 @@ def i64Hi : Int := 9223372036854775807
 /-- two's complement wrap of Go's `int64` arithmetic -/
 def toI64 (x : Int) : Int := (x + 9223372036854775808) % 18446744073709551616 - 9223372036854775808
 def isI64 (x : Int) : Prop := i64Lo ≤ x ∧ x ≤ i64Hi
+instance (x : Int) : Decidable (isI64 x) := by unfold isI64; infer_instance
+
+deriving instance DecidableEq for Except
 
 section
 variable {L A M S T : Type}
